@@ -216,6 +216,8 @@ def line(dur, begin=0., end=1., finish=False):
     Second and hertz constants from samples/second rate.
 
   """
+  if int(dur + .5) <= 0: # No samples, no slope (avoids 0 / 0 when dur == 0)
+    return
   m = (end - begin) / (dur - (1. if finish else 0.))
   for sample in xrange(int(dur + .5)):
     yield begin + sample * m
